@@ -7,7 +7,9 @@ Tie to /repo, on every run:
  * verified oracle - the extracted `check_partition` (sound by C08_check_sound) on the output of EVERY
    partitioner (Quick, Scan, Clustering, Greedy, GroupSingleQuditGate, ExtendBlockSize, GTQCP, TDAG);
  * an independent Python re-implementation of the oracle cross-checks the extracted one.
-Only Quick is `proved`; the others are `oracle-checked` per run.
+ * correspondence  - the extracted ScanPartitioner model (coq/part/Scan.v) against the real ScanPartitioner
+   (the list returned by calculate_qudit_groups is recorded and replayed; the model checks it);
+Quick and Scan are `proved` (Scan: safety half, barrier clause refuted); the others are `oracle-checked` per run.
 """
 from __future__ import annotations
 
@@ -313,6 +315,30 @@ def quick_line(k, fx, width, ncyc, cin, hints):
     return 'quick %d %d %d %d [%s] [%s]' % (k, fx, width, ncyc, ops, ' '.join(f_loc(h) for h in hints))
 
 
+def scan_line(k, width, ncyc, cin, groups):
+    ops = ' '.join('[%d %d %s %d %s]' % (cy, g, f_loc(loc), p, kd) for cy, g, loc, p, kd in cin)
+    return 'scan %d %d %d [%s] [%s]' % (k, width, ncyc, ops, ' '.join(f_loc(g) for g in groups))
+
+
+def groups_oracle(k, width, cin, groups):
+    """What the Scan theorems need from calculate_qudit_groups (groups_okb of coq/part/Scan.v), evaluated
+    independently on the implementation's value."""
+    probs = []
+    for g in groups:
+        if len(g) == 0:
+            probs.append('empty_group')
+        if len(set(g)) != len(g):
+            probs.append('repeated_qudit')
+        if len(g) > k:
+            probs.append('group_wider_than_block')
+        if any(q < 0 or q >= width for q in g):
+            probs.append('qudit_outside_circuit')
+    covered = {q for g in groups for q in g}
+    if any(q not in covered for x in cin for q in x[2]):
+        probs.append('active_qudit_in_no_group')
+    return sorted(set(probs))
+
+
 def parse_val(s):
     toks = s.replace('[', ' [ ').replace(']', ' ] ').split()
     pos = 0
@@ -383,6 +409,7 @@ class _Hang(Exception):
     pass
 
 
+_scan_groups = []   # calculate_qudit_groups results of the last ScanPartitioner run in this process
 _hangs = collections.Counter()   # per worker process: a partitioner that hung twice is not run again
 
 
@@ -408,7 +435,18 @@ def run_partitioner(name, c, k, seed, m=None, limit=None):
         if name == 'Quick':
             run_pass(P.QuickPartitioner(k), c)
         elif name == 'Scan':
-            run_pass(P.ScanPartitioner(k), c)
+            # the result of calculate_qudit_groups is recorded (instance attribute shadows the method;
+            # /repo is not edited) and replayed to the Coq model, which checks it
+            sp = P.ScanPartitioner(k)
+            orig = sp.calculate_qudit_groups
+            _scan_groups.clear()
+
+            def rec_groups(circ):
+                r = orig(circ)
+                _scan_groups.append([list(g) for g in r])
+                return r
+            sp.calculate_qudit_groups = rec_groups
+            run_pass(sp, c)
         elif name == 'Clustering':
             run_pass(P.ClusteringPartitioner(k, 4), c)
         elif name == 'Greedy':
@@ -441,6 +479,10 @@ def run_partitioner(name, c, k, seed, m=None, limit=None):
     return 'ok', c
 
 
+# the extracted Scan model looks operations up in a list (Peano qudits): bounded size in the quick tier
+SCAN_MODEL_MAX_OPS = dict(quick=160, thorough=10 ** 9)
+
+
 def eval_partitioner(name, spec, k, seed, want_lines=True):
     """Run one partitioner of /repo on the case; python oracle verdict + the query lines for the
     extracted oracle.  Returns dict(status, symptoms, lines, kk, inp, out)."""
@@ -448,6 +490,7 @@ def eval_partitioner(name, spec, k, seed, want_lines=True):
     it = Intern()
     cin = flat_in(c, it)
     inp = [x[1:] for x in cin]
+    ncyc0 = c.num_cycles
     m = None
     kk = k
     if name == 'Single':
@@ -457,8 +500,12 @@ def eval_partitioner(name, spec, k, seed, want_lines=True):
         if m > spec['width']:
             m = spec['width']
         kk = max(k, m)
+    _scan_groups.clear()
     st, r = run_partitioner(name, c, k, seed, m)
     res = dict(status=st, symptoms=[], lines=[], kk=kk, msg=None)
+    if name == 'Scan':
+        res['scan'] = dict(cin=cin, ncyc=ncyc0, groups=_scan_groups[0] if _scan_groups else [],
+                           ngroup_calls=len(_scan_groups))
     if st != 'ok':
         res['msg'] = r
         if st == 'exc':
@@ -482,6 +529,8 @@ def exc_class(msg):
         return 'region_off_circuit'
     if 'Unable to process all pending bins' in msg:
         return 'pending_bins'
+    if 'Expected lower to be <= upper' in msg:
+        return 'empty_circuit_fold'
     return 'other'
 
 
@@ -545,6 +594,34 @@ def work(args):
                                  expected='flattened output', observed=repr(e)[:300], what='harness could not evaluate the output'))
                 continue
             counts['%s:%s' % (name, r['status'])] += 1
+            if name == 'Scan' and 'scan' in r and (r['status'] in ('ok', 'rejected') or r['symptoms'] == ['exception:ValueError:empty_circuit_fold']):
+                sc = r['scan']
+                simpl = None
+                if r['status'] == 'ok':
+                    simpl = ('OK', canon_items(r['out']))
+                elif 'cannot handle gates larger' in (r['msg'] or ''):
+                    simpl = ('ERR', 'SWide')
+                elif r['status'] == 'exc':
+                    simpl = ('ERR', 'SEmptyFold')      # finding C08.S1: the model has it as an explicit error result
+                whole = k > spec['width']
+                if not whole:
+                    gp = groups_oracle(k, spec['width'], sc['cin'], sc['groups']) if sc['ngroup_calls'] == 1 else ['calculate_qudit_groups_calls=%d' % sc['ngroup_calls']]
+                    if gp:
+                        viol.append(dict(sig=dict(partitioner='ScanPartitioner', symptom='bad_qudit_groups'), case=case,
+                                         expected='groups: non-empty, no repeats, <= block size, inside the circuit, covering every active qudit',
+                                         observed=dict(problems=gp, groups=sc['groups'][:40]),
+                                         what='ScanPartitioner.calculate_qudit_groups returned a list the proved model rejects'))
+                    else:
+                        counts['Scan:groups_ok'] += 1
+                if simpl is not None and len(spec['ops']) <= SCAN_MODEL_MAX_OPS[tier]:
+                    lines.append(scan_line(k, spec['width'], sc['ncyc'], sc['cin'], sc['groups']))
+                    todo.append(('scan', 'Scan', case, simpl))
+                    counts['Scan:whole_circuit_fold' if whole else 'Scan:scanned'] += 1
+                else:
+                    counts['Scan:model_skipped_large'] += 1
+            if r['status'] == 'exc' and 'not run again after two hangs' in (r['msg'] or ''):
+                counts['%s:not_run_after_two_hangs' % name] += 1     # the two hangs themselves were reported with their inputs
+                continue
             if r['status'] == 'exc':
                 viol.append(dict(sig=sig_of(name, r['symptoms'][0], spec, k), case=case, expected='a partitioned circuit',
                                  observed=r['msg'], what='%s raised on an input it should accept' % CLASSNAME[name], symptom=r['symptoms'][0]))
@@ -586,6 +663,23 @@ def work(args):
                 viol.append(dict(sig=sig_of(name, s, case['spec'], case['k']), case=case, expected='good_partition (check_partition = true)',
                                  observed=dict(violated=sym, extracted_oracle=strict, extracted_oracle_kinds_erased=relaxed),
                                  what='%s output violates the partition property: %s' % (CLASSNAME[name], s), symptom=s))
+        elif kind == 'scan':
+            got = outl[pos]
+            pos += 1
+            try:
+                v = parse_val(got)
+                model_res = ('OK', canon_items(model_items(v[1]))) if v[0] == 'OK' else ('ERR', v[1])
+            except Exception:  # noqa
+                model_res = ('BAD', got[:200])
+            if model_res != r:
+                viol.append(dict(sig=dict(partitioner='ScanPartitioner', symptom='model_mismatch'), case=case,
+                                 expected=_short(model_res), observed=_short(r),
+                                 what='Coq model of ScanPartitioner and the implementation disagree', kind='correspondence',
+                                 corr='coq/part/Scan.v vs bqskit/passes/partitioning/scan.py'))
+            else:
+                counts['Scan:model_agrees'] += 1
+                if model_res[0] == 'ERR':
+                    counts['Scan:model_agrees_on_refusal'] += 1
         elif kind == 'quick':
             got = outl[pos]
             pos += 1
@@ -702,16 +796,19 @@ def run(ctx: vf.Ctx):
     ctx.rule = ('random circuits: width 2-20, 1/2/3-qudit gates (13 gate types, random parameters), barriers, measurements, '
                 'resets, already-blocked input blocks, up to %d operations; block sizes 2-6; ~8%% malformed stream (empty, '
                 'single op, gates wider than the block, idle qudits). Per case: QuickPartitioner vs the extracted Coq model '
-                '(grid compared up to commutation on disjoint qudits), and the extracted verified check_partition + an '
+                '(grid compared up to commutation on disjoint qudits), ScanPartitioner vs its extracted Coq model with the recorded '
+                'qudit groups (same comparison), and the extracted verified check_partition + an '
                 'independent python oracle on the output of every partitioner that accepts the input. non-trivial = '
                 'at least 2 operations; distinct by canonical (circuit, block size)' % ctx.n(500, 3000))
     ctx.assumptions += [
+        'ScanPartitioner: calculate_qudit_groups (MachineModel.get_locations over the circuit coupling graph) is not modelled; its value is replayed and CHECKED by the model (non-empty groups without repeats, at most block-size qudits, every active qudit covered) and by an independent python check; termination of the while loop / a non-empty best block are not proved (explicit error results of the model, never observed)',
+        'ScanPartitioner.fold_circuit sorts a block by (cycle, location); the model keeps the input order, which is cycle order: equal up to commutation of operations in the same cycle',
         'Circuit.append/pop/insert place operations so that iteration order respects per-qudit order (C04/C05); the Quick model keeps the partitioned circuit as a list and outputs are compared up to commutation of operations on disjoint qudits',
         'the order of `for p in partitioned_circuit.rear` (a set) does not change the merged block up to commutation (argued in design_notes/C08.md, validated by every correspondence case)',
         'liveness of QuickPartitioner (no RuntimeError): refuted for the unchanged code with barriers (C08_quick_all_emitted_refuted, finding C08.Q1); proved for the repaired code and for barrier-free input (C08_quick_all_emitted); the two asserts of the main loop (model results EAssert/ENoBin/EFuel) are covered by correspondence only',
         'gates are interned by (gate, parameters) value; blocks already present in the input are atomic',
     ]
-    ctx.trusted = ['Coq 8.16.1 kernel', 'ExtrOcamlBasic extraction, OCaml 4.13.1, coq/extract/part_driver.ml',
+    ctx.trusted = ['Coq 8.16.1 kernel', 'ExtrOcamlBasic extraction, OCaml 4.13.1, coq/extract/part_driver.ml', 'recording of ScanPartitioner.calculate_qudit_groups (instance attribute)',
                    'harness/props/c08.py: flattening of Circuit objects, interning, Foata canonical form, python oracle']
     if not ctx.extract_ok.get('part'):
         return
@@ -757,17 +854,24 @@ def run(ctx: vf.Ctx):
     per = {}
     for name in PARTITIONERS:
         per[CLASSNAME[name]] = dict(
-            status='proved (safety for all inputs; liveness for the repaired code and barrier-free input; unbounded) + model correspondence + oracle-checked' if name == 'Quick' else 'oracle-checked',
+            status=('proved (safety for all inputs; liveness for the repaired code and barrier-free input; unbounded) + model correspondence + oracle-checked' if name == 'Quick'
+                    else 'proved (safety without the barrier clause for all inputs, scoring functions and checked qudit groups: C08_scan_regrouping; barrier clause refuted: C08_scan_barrier_absorbed; termination not proved) + model correspondence + oracle-checked' if name == 'Scan'
+                    else 'oracle-checked'),
             accepted=stat.get(name + ':ok', 0), rejected_documented=stat.get(name + ':rejected', 0),
             raised=stat.get(name + ':exc', 0), good=stat.get(name + ':good', 0), bad=stat.get(name + ':bad', 0),
             blocks=stat.get(name + ':blocks', 0))
     per['QuickPartitioner']['model_agrees'] = stat.get('Quick:model_agrees', 0)
     per['QuickPartitioner']['hint_sets_with_choice'] = stat.get('Quick:hint_sets>1', 0)
     per['QuickPartitioner']['raised_pending_bins'] = stat.get('Quick:pending_bins', 0)
+    for kx in ('model_agrees', 'model_agrees_on_refusal', 'scanned', 'whole_circuit_fold', 'model_skipped_large', 'groups_ok'):
+        per['ScanPartitioner'][kx] = stat.get('Scan:' + kx, 0)
     ctx.cov['partitioners'] = per
-    ctx.cov['functions_with_theorems'] = ['QuickPartitioner.run (partial correctness for all inputs: C08_quick_correct_partial; no RuntimeError for the repaired code / barrier-free input: C08_quick_all_emitted)', 'check_partition (C08_check_sound)']
-    ctx.cov['correspondence_only'] = ['the two asserts of QuickPartitioner.run (EAssert/ENoBin/EFuel of the model)', 'Circuit.append/pop cycle placement', 'order-independence of `for p in partitioned_circuit.rear`']
-    ctx.cov['uncovered'] = ['ScanPartitioner, ClusteringPartitioner, GreedyPartitioner, GTQCPartitioner, TDAGPartitioner, GroupSingleQuditGatePass, ExtendBlockSizePass have no model: decided per run by the verified oracle']
+    ctx.cov['functions_with_theorems'] = ['QuickPartitioner.run (partial correctness for all inputs: C08_quick_correct_partial; no RuntimeError for the repaired code / barrier-free input: C08_quick_all_emitted)',
+                                          'ScanPartitioner.run + calculate_block + FastRegionIterator + find_best_block + fold_circuit (C08_scan_block_closed, C08_scan_step_inv, C08_scan_regrouping, C08_scan_good_partition for barrier-free input; barrier clause refuted C08_scan_barrier_absorbed)',
+                                          'check_partition (C08_check_sound)']
+    ctx.cov['correspondence_only'] = ['ScanPartitioner: termination of the while loop and non-emptiness of the chosen blocks (model results SLoop/SEmptyBlock/SFuel), the properties of calculate_qudit_groups (checked by the model on the replayed value: SBadGroups; and by groups_oracle)',
+                                      'the two asserts of QuickPartitioner.run (EAssert/ENoBin/EFuel of the model)', 'Circuit.append/pop cycle placement', 'order-independence of `for p in partitioned_circuit.rear`']
+    ctx.cov['uncovered'] = ['ClusteringPartitioner, GreedyPartitioner, GTQCPartitioner, TDAGPartitioner, GroupSingleQuditGatePass, ExtendBlockSizePass have no model: decided per run by the verified oracle']
     if not ctx.quick():
         # independent re-check of the compiled proofs
         rc, o_, e_ = vf.sh(['coqchk', '-silent', '-o', '-Q', str(vf.COQ), 'BQ', 'BQ.props.C08'], cwd=str(vf.COQ), timeout=1500)
